@@ -33,6 +33,9 @@ except ImportError:
 
 ALL = ["C%02d" % i for i in range(1, 20)]
 NA_REASON = {}
+_missing = [p for p in ALL if p not in CHECKS and p not in NA_REASON]
+if _missing:
+    raise SystemExit("manifest_gen: no check and no not_applicable reason for %s (a chk() call lost its property id?)" % _missing)
 na = [{"property_id": p, "reason": NA_REASON.get(p, "check not built yet at this commit (work in progress, see DESIGN.md §5)")} for p in ALL if p not in CHECKS]
 hooks = subprocess.run(["git", "-C", "/repo", "log", "--format=%H %s"], stdout=subprocess.PIPE, text=True).stdout.splitlines()
 hook_commits = [l.split()[0] for l in hooks if "verif hooks" in l or l.split(" ", 1)[1].startswith("verif:")]
